@@ -3564,7 +3564,8 @@ namespace awkward {
                 pair[0] = 0;
                 break;
               }
-              pair[0] = (pair[1] + (pair[0] % pair[1])) % pair[1];
+              T rem = pair[0] % pair[1];
+              pair[0] = (rem != 0  &&  ((rem < 0) != (pair[1] < 0))) ? rem + pair[1] : rem;
               break;
             }
 
@@ -3588,8 +3589,9 @@ namespace awkward {
               T tmp = one / two;
               stack_buffer_[stack_depth_ - 1] =
                   tmp * two == one ? tmp : tmp - ((one < 0) ^ (two < 0));
+              T rem = one % two;
               stack_buffer_[stack_depth_ - 2] =
-                  (two + (one % two)) % two;
+                  (rem != 0  &&  ((rem < 0) != (two < 0))) ? rem + two : rem;
               break;
             }
 
